@@ -206,9 +206,13 @@ Definition show_trace (t : list event) : sx := SL (map show_event t).
    exhausted before any earlier-used variable moved on (more was pulled than the reference enumerator needs) *)
 Definition b2z (b : bool) (w : Z) : Z := if b then 0%Z else w.
 Definition case_in_F10 (c : ecase) : sx := SZ (if f10 (e_query c) then 1 else 0)%Z.
-Definition spec_code (full : list event) (ks : list (list event)) : Z :=
+Definition spec_code (check_demand : bool) (full : list event) (ks : list (list event)) : Z :=
   let nk := combine (seq 0 (length ks)) ks in
   let all := full :: ks in
   (b2z (forallb (fun p => rows_eqb (rows_of (snd p)) (firstn (fst p) (rows_of full)) && prefixb (snd p) full) nk) 1
    + b2z (forallb (fun t => forallb (fun x => pulls_in_orderb x t) (vars_of full)) all) 2
-   + b2z (forallb demand_okb all) 4)%Z.
+   + b2z (negb check_demand || forallb demand_okb all) 4)%Z.
+(* the demand bound is relative to a single-pass nested-loop enumerator: it is applied to union-free conditions only *)
+Definition union_free_o (c : option cond) : bool := match c with Some c => union_free c | None => true end.
+Definition case_spec_code (c : ecase) (full : list event) (ks : list (list event)) : sx :=
+  SZ (spec_code (union_free_o (q_cond (e_query c))) full ks).
